@@ -150,7 +150,7 @@ class C15(Check):
         "Distinct by digest."
     )
     assumptions = ["write_union_type=False output is compared with the plain encoding only (it is documented as not re-readable)"]
-    required_labels = ["s:union", "s:map", "s:array", "s:ref", "s:enum", "s:fixed", "s:bytes", "top:non-record", "multi-record", "defaults-deleted", "plain-union", "nested-container-default"]
+    required_labels = ["s:union", "s:map", "s:array", "s:ref", "s:enum", "s:fixed", "s:bytes", "top:non-record", "multi-record", "defaults-deleted", "plain-union", "nested-container-default", "top-level-null-document"]
     quick = (3500, 1)
     thorough = (8000, 16)
 
@@ -168,6 +168,10 @@ class C15(Check):
             d = gen.D(draw)
             if d.p(0.08):
                 return self.nested_default_case(d)
+            if d.p(0.06):
+                return self.named_default_case(d)
+            if d.p(0.05):
+                return self.nullable_top_case(d)
             ir, table, js = gen.build_schema(d, feat)
             gen.check_truth(ir, table, js)
             dg = JsonData(d, feat, table)
@@ -175,6 +179,39 @@ class C15(Check):
             return {"schema": js, "records": [dg.gen(ir, 5) for _ in range(n)], "write_union_type": not d.p(0.15), "parsed": d.p(0.3)}
 
         return cases()
+
+    def named_default_case(self, d):
+        """One named type referred to by name from several fields that declare different defaults."""
+        E = {"type": "enum", "name": "nd.Size", "symbols": ["S", "M", "L"]}
+        P = {"type": "record", "name": "nd.Point", "fields": [{"name": "x", "type": "int"}, {"name": "y", "type": "int"}]}
+        F = {"type": "fixed", "name": "nd.Tag", "size": 2}
+        defs = [(E, "nd.Size", ["S", "M", "L"]), (P, "nd.Point", [{"x": 0, "y": 0}, {"x": 1, "y": 1}])]
+        fields = []
+        seen = set()
+        for j in range(d.rng(3, 6)):
+            tdef, tname, choices = d.choice(defs)
+            t = tdef if tname not in seen else tname
+            seen.add(tname)
+            fields.append({"name": f"f{j}", "type": t, "default": d.choice(choices)})
+        fields.append({"name": "n", "type": "int"})
+        recs = []
+        for _ in range(d.rng(1, 3)):
+            r = {"n": d.rng(0, 5)}
+            for f in fields[:-1]:
+                if d.p(0.5):
+                    r[f["name"]] = f["default"]
+            recs.append(r)
+        return {"schema": {"type": "record", "name": "nd.Holder", "fields": fields}, "records": recs, "write_union_type": True, "parsed": d.p(0.5)}
+
+    def nullable_top_case(self, d):
+        """Top-level schemas for which a whole JSON document is `null`, with nulls at the start, middle and end."""
+        js = d.choice([["null", "int"], ["string", "null"], "null", ["null", {"type": "record", "name": "nt.R", "fields": [{"name": "a", "type": "long"}]}]])
+        others = {0: [5, -1], 1: ["s", ""], 2: [None], 3: [{"a": 1}, {"a": 2**40}]}
+        idx = [["null", "int"], ["string", "null"], "null"].index(js) if js in [["null", "int"], ["string", "null"], "null"] else 3
+        recs = []
+        for _ in range(d.rng(2, 5)):
+            recs.append(None if d.p(0.5) else d.choice(others[idx]))
+        return {"schema": js, "records": recs, "write_union_type": True, "parsed": False}
 
     def nested_default_case(self, d):
         """Defaults that are nested containers; some records omit the field, several records per text."""
@@ -213,6 +250,8 @@ class C15(Check):
         recs = case["records"]
         if len(recs) > 1:
             labels.add("multi-record")
+        if len(recs) > 1 and any(r is None for r in recs):
+            labels.add("top-level-null-document")
         wut = case.get("write_union_type", True)
         schema = bincase.fa_schema(fastavro, case)
         # binary reference path: branches + normalised values
